@@ -294,10 +294,21 @@ func specStep(cur *CTy, key string) (next *CTy, ok bool, unspec bool) {
 		}
 		return nil, false, false
 	}
-	if cur.T == "list" && (cur.E.T == "list" || cur.E.T == "deplist") {
-		return nil, false, true // a key after a list of lists: outside the quantifier (observed: swallowed by the AnyIndex fallback)
+	// primitives, lists (a key cannot be stepped across a list; after a list of lists there is nothing it could name), dependency
+	// lists: no key can be stepped
+	return nil, false, false
+}
+
+// specElemStep: a key applied to an ELEMENT of a list (after First/Last/Index, or as the first key of a filter condition) names a
+// field of the element type
+func specElemStep(list *CTy, key string) (next *CTy, ok bool, unspec bool) {
+	if list.T != "list" {
+		return nil, false, true
 	}
-	// primitives, lists, dependency lists: no key can be stepped
+	switch list.E.T {
+	case "top", "struct":
+		return specStep(list.E, key)
+	}
 	return nil, false, false
 }
 
@@ -534,7 +545,7 @@ func c13Root(g *cueGen, depth int) (*CTy, []string) {
 }
 
 func genC13(c *Ctx) {
-	c.Rule = "random CUE schemas from a type-tree generator (closed and open structs to depth 4; fields string/bytes/bool/int/float/number/_; lists of those and of structs; regular, optional ?, required !, quoted, hidden _x and definition-typed fields), each rendered as CUE text; per schema every declared key path (sampled when there are many) plus one-key mutations (a key replaced by an undeclared one, an undeclared or misplaced key appended), validated by the real CueValidate with and without a current step; oracle: accept with the declared (type, Single|Array) iff every key names a declared field, reject otherwise (any message), open structs and _ accept any further key as Any; unspecified by the property and excluded from the oracle: hidden fields marked ?/!, keys differing only in case, lists of lists. distinct = distinct (class, path length, node kinds along the path, verdict); non-trivial = verdict is not the most common one"
+	c.Rule = "random CUE schemas from a type-tree generator (closed and open structs to depth 4; fields string/bytes/bool/int/float/number/_; lists of those and of structs; regular, optional ?, required !, quoted, hidden _x and definition-typed fields), each rendered as CUE text; per schema every declared key path (sampled when there are many) plus one-key mutations (a key replaced by an undeclared one, an undeclared or misplaced key appended), validated by the real CueValidate with and without a current step; oracle: accept with the declared (type, Single|Array) iff every key names a declared field, reject otherwise (any message), open structs and _ accept any further key as Any; a key after a list of lists is rejected; keys applied to the ELEMENTS of a list of structs or of `_` (after First / Last / Index(0), and as the key of a filter condition; open lists `[...T]` and closed lists `[T]`): a declared element field is accepted with its own kind, an undeclared one rejected, open element structs and `_` elements accept any key as Any; unspecified by the property and excluded from the oracle: hidden fields marked ?/!, keys differing only in case, the kind reported for a list of lists. distinct = distinct (class, path length, node kinds along the path, verdict); non-trivial = verdict is not the most common one"
 	n := c.scale(700, 7000)
 	for i := 0; i < n; i++ {
 		g := &cueGen{r: c.R}
@@ -587,6 +598,65 @@ func genC13(c *Ctx) {
 			c.cueDo(cueCase{S: root, P: p, CP: cp, Dom: !unspec, Q: q, Txt: txt}, cls, expect, unspec)
 		}
 	}
+	// keys applied to the elements of a list: after First / Last / Index, and as the key of a filter condition; open lists `[...T]`
+	// and closed ones `[T]`; declared element fields (their own kind is reported), undeclared ones (rejected), open element
+	// structs and `_` elements (any key, Any)
+	for i := 0; i < c.scale(500, 5000); i++ {
+		g := &cueGen{r: c.R}
+		root, _ := c13Root(g, 3)
+		txt := cueSchemaText(g, root)
+		var ps [][]string
+		cueDeclaredPaths(root, nil, &ps, 0)
+		var lists [][]string
+		for _, p := range ps {
+			cur, ok := root, true
+			for _, k := range p {
+				var u bool
+				cur, ok, u = specStep(cur, k)
+				if !ok || u {
+					ok = false
+					break
+				}
+			}
+			if ok && cur.T == "list" && (cur.E.T == "struct" || cur.E.T == "top") {
+				lists = append(lists, p)
+			}
+		}
+		for k := 0; k < 4 && len(lists) > 0; k++ {
+			p := lists[c.R.Intn(len(lists))]
+			cur := root
+			for _, kk := range p {
+				cur, _, _ = specStep(cur, kk)
+			}
+			key := "zz"
+			switch r := c.R.Intn(5); {
+			case r < 3 && cur.E.T == "struct" && len(cur.E.F) > 0:
+				key = cur.E.F[c.R.Intn(len(cur.E.F))].N
+			case r == 3:
+				key = cueNames[c.R.Intn(len(cueNames))]
+			}
+			if key == "_dependencies" {
+				continue
+			}
+			nx, ok, unspec := specElemStep(cur, key)
+			form := c.R.Intn(4)
+			q := "$." + strings.Join(p, ".") + []string{".First()." + key, ".Last()." + key, ".Index(0)." + key, "[@." + key + ".IsNull()]"}[form]
+			expect := "REJ"
+			if ok {
+				if form == 3 {
+					expect = "ACC Object Array"
+					if cur.E.T == "top" {
+						expect = "ACC Any Array"
+					}
+				} else {
+					ty, io, u := specKind(nx)
+					expect, unspec = "ACC "+ty+" "+io, unspec || u
+				}
+			}
+			cls := []string{"element-key/First", "element-key/Last", "element-key/Index", "element-key/filter"}[form] + map[int]string{0: "/closed-list", 1: "/open-list"}[cur.Open]
+			c.cueDo(cueCase{S: root, P: append(append([]string{}, p...), key), CP: "", Dom: !unspec, Pos: "elem", Q: q, Txt: txt}, cls, expect, unspec)
+		}
+	}
 	// hand-written schemas: definitions (which are not fields: `#name` is not an addressable key, wherever it is declared), and root
 	// fields whose names look like identifiers of another kind (32 hex digits, UUIDs in capitals) - a key is its spelling
 	{
@@ -634,8 +704,8 @@ func c15Schema(steps []string, edges map[string][]string, extraDeclared []string
 			{N: "_dependencies", M: "reg", H: 1, Ty: &CTy{T: "deplist", V: deps}},
 		}}
 		f := &CField{N: name, M: "reg", Ty: st}
-		if strings.Contains(name, "-") {
-			f.Q = 1
+		if strings.Contains(name, "-") || strings.Contains(name, "\\") {
+			f.Q = 1 // a name that CUE only takes as a quoted label (a backslash is written twice inside the quotes)
 		}
 		if strings.HasPrefix(name, "_") { // a hidden root field (not one of the base paths): a step like the others as far as availability goes
 			f.H = 1
@@ -751,7 +821,7 @@ func (c *Ctx) c15Check(root *CTy, txt string, all []string, cp, target, cls stri
 }
 
 func genC15(c *Ctx) {
-	c.Rule = "dependency graphs over k steps (every subset of the k*k edges, self-loops and cycles included): all graphs over 3 steps in the quick tier (2^9) and all over 4 steps in the thorough tier (2^16, one current step per graph, chosen by a hash of the edge set: 65536 (graph, current step) pairs x 7 targets instead of 4 x as many; the quick tier samples 800 graphs with every current step), each x every current step (3 steps) x every root field as target (steps, a merely declared step, a hidden root field `_s1` next to `s1`, input, variables), the target read at the head of the path; for a sample also inside a filter, a function argument, a nested group, an argument of a call on a value parsed inside the query (`….ParseJSON().token.Equal($.s1.name)`), and with the root field written with its `?` mark (`$.s1?.name`, also inside an argument); the 3-step graphs again with the root fields declared in three other orders (steps before input, reversed, rotated); plus random graphs of up to 12 steps (chains, diamonds, fan-in, dangling names). Oracle: accepted iff the target is a base path or in the transitive closure of the current step's _dependencies, and is not the current step itself (unless input); the fields offered at the root are exactly the non-blocked ones; a dependency naming an undeclared step yields an error result; every call returns within the watchdog. distinct = distinct (class, verdict)"
+	c.Rule = "dependency graphs over k steps (every subset of the k*k edges, self-loops and cycles included): all graphs over 3 steps in the quick tier (2^9) and all over 4 steps in the thorough tier (2^16, one current step per graph, chosen by a hash of the edge set: 65536 (graph, current step) pairs x 7 targets instead of 4 x as many; the quick tier samples 800 graphs with every current step), each x every current step (3 steps) x every root field as target (steps, a merely declared step, a hidden root field `_s1` next to `s1`, input, variables); steps whose names hold a backslash (written quoted and escaped in CUE, plain in a query); fields below the root named like blocked steps (`$.input.items[@.s2.Equal(..)]`, `$.input.items.First().s2`: accepted, they are element fields), the target read at the head of the path; for a sample also inside a filter, a function argument, a nested group, an argument of a call on a value parsed inside the query (`….ParseJSON().token.Equal($.s1.name)`), and with the root field written with its `?` mark (`$.s1?.name`, also inside an argument); the 3-step graphs again with the root fields declared in three other orders (steps before input, reversed, rotated); plus random graphs of up to 12 steps (chains, diamonds, fan-in, dangling names). Oracle: accepted iff the target is a base path or in the transitive closure of the current step's _dependencies, and is not the current step itself (unless input); the fields offered at the root are exactly the non-blocked ones; a dependency naming an undeclared step yields an error result; every call returns within the watchdog. distinct = distinct (class, verdict)"
 	run := func(k int, mask uint64, cls string, positions bool) {
 		var steps []string
 		for i := 0; i < k; i++ {
@@ -821,6 +891,67 @@ func genC15(c *Ctx) {
 			}
 		}
 		c15Forms = map[string]*CField{}
+	}
+	// steps whose names hold a backslash (a key may: `$.s\1.name`); CUE writes such a label quoted and escaped
+	{
+		steps := []string{"s\\1", "s\\\\2", "s3"}
+		all := append(append([]string{"input", "variables"}, steps...), "lone\\ly")
+		for m := uint64(0); m < 1<<9; m++ {
+			if !c.thorough() && m%4 != 2 {
+				continue
+			}
+			edges := map[string][]string{}
+			for i := 0; i < 3; i++ {
+				for j := 0; j < 3; j++ {
+					if m>>(uint(i*3+j))&1 == 1 {
+						edges[steps[i]] = append(edges[steps[i]], steps[j])
+					}
+				}
+			}
+			root, txt := c15Schema(steps, edges, []string{"lone\\ly"})
+			for _, cp := range steps {
+				for _, target := range all {
+					c.c15Check(root, txt, all, cp, target, "backslash-names/3-steps", m%32 == 2)
+				}
+			}
+		}
+	}
+	// fields BELOW the root that are named like blocked steps are not root fields: the first key of an `@` condition under a
+	// collection, and a key after First(), are fields of the elements
+	{
+		steps := []string{"s1", "s2", "s3"}
+		for _, m := range []uint64{0, 1 << 1, 1<<1 | 1<<5, 1 << 3, 0x1ff} {
+			edges := map[string][]string{}
+			for i := 0; i < 3; i++ {
+				for j := 0; j < 3; j++ {
+					if m>>(uint(i*3+j))&1 == 1 {
+						edges[steps[i]] = append(edges[steps[i]], steps[j])
+					}
+				}
+			}
+			root, _ := c15Schema(steps, edges, []string{"lonely"})
+			for _, f := range root.F { // every step's `items` elements get fields named like the root fields
+				for _, g := range f.Ty.F {
+					if g.N == "items" {
+						for _, nm := range []string{"s1", "s2", "s3", "lonely", "input"} {
+							g.Ty.E.F = append(g.Ty.E.F, &CField{N: nm, M: "reg", Ty: &CTy{T: "string"}})
+						}
+					}
+				}
+			}
+			txt := cueSchemaText(&cueGen{}, root)
+			for _, cp := range steps {
+				for _, nm := range []string{"s1", "s2", "s3", "lonely", "input", "nosuch"} {
+					for fi, q := range []string{"$.input.items[@." + nm + ".Equal(\"x\")]", "$.input.items.First()." + nm, "$.input.items[@.v.Equal(\"x\")].Last()." + nm, "{$.input.items[@." + nm + ".IsNull()].Any()}"} {
+						expect := []string{"ACC Object Array", "ACC String Single", "ACC String Single", "ACC Boolean Single"}[fi]
+						if nm == "nosuch" {
+							expect = "REJ"
+						}
+						c.cueDo(cueCase{S: root, P: []string{"input", "items", nm}, CP: cp, Dom: true, Pos: "elem", Q: q, Txt: txt}, "element-fields-named-like-steps", expect, false)
+					}
+				}
+			}
+		}
 	}
 	// the same graphs with the root fields declared in other orders (steps before input, reversed, rotated)
 	for ord := 1; ord <= 3; ord++ {
